@@ -923,14 +923,10 @@ impl Exec for CodecWExec {
     }
 }
 
-impl Family for CodecWFamily {
-    fn name(&self) -> &'static str {
-        "codecw"
-    }
-
-    fn new_exec(&self) -> Box<dyn Exec> {
+impl CodecWExec {
+    fn fresh() -> CodecWExec {
         let (_, next) = ByteArena::verif_live_chunks();
-        Box::new(CodecWExec {
+        CodecWExec {
             codec: Codec::None,
             foreign: None,
             bufs: vec![],
@@ -954,7 +950,26 @@ impl Family for CodecWFamily {
             dec_errors: 0,
             prev_out: vec![],
             pre: PreTrack::default(),
-        })
+        }
+
+    }
+}
+
+/// No op of this vocabulary is specified to panic (`panic_violation`): every op may run while the
+/// thread is unwinding (track traits, `unwind.rs`).
+impl crate::unwind::Probe for CodecWExec {
+    fn unwind_safe(&self, _w: &[&str]) -> bool {
+        true
+    }
+}
+
+impl Family for CodecWFamily {
+    fn name(&self) -> &'static str {
+        "codecw"
+    }
+
+    fn new_exec(&self) -> Box<dyn Exec> {
+        crate::unwind::UnwindExec::boxed(CodecWExec::fresh)
     }
 
     fn enumerated(&self, _thorough: bool) -> Vec<Vec<String>> {
@@ -962,6 +977,23 @@ impl Family for CodecWFamily {
     }
 
     fn gen_case(&self, rng: &mut Rng, idx: u64, thorough: bool) -> Vec<String> {
+        // track traits: some calls made while the thread is unwinding; now and then a second (short)
+        // history whose codec is owned by a scope that panics
+        let mut ops = self.gen_plain(rng, idx, thorough);
+        if rng.chance(1, 5) {
+            ops = crate::unwind::sprinkle(rng, ops, 1, 3, |_| true);
+        }
+        if idx % 8 != 0 && rng.chance(1, 8) {
+            let mut inner = self.gen_plain(rng, 1, false);
+            inner.truncate(6);
+            ops.push(format!("scoped_panic {}", inner.join(" ; ")));
+        }
+        ops
+    }
+}
+
+impl CodecWFamily {
+    fn gen_plain(&self, rng: &mut Rng, idx: u64, thorough: bool) -> Vec<String> {
         if idx % 8 == 3 {
             return gen_prefill_case(rng); // track apileft-prefill (idx % 4 == 1 are helper decw's sessions)
         }
